@@ -17,6 +17,7 @@ CONFIG = dict(
           "metrics; distinct by hash of (existing, options, strategies)."),
     assumptions=["MetricStrategy.Choose is only called with a non-empty option list (ChooseParents guarantees it)",
                  "existing parents are distinct except in the marked duplicate class"],
+    level_more='In half of the cases the existing-parents list is a buffer with spare capacity and a second selection from the same buffer must not rewrite the first result.',
     units=[
         dict(test="TestC19ChooseParents", quick=50000, thorough=8000000, shards=16),
         dict(test="TestC19MetricChoose", quick=30000, thorough=1600000, shards=16),
